@@ -187,7 +187,7 @@ fn growth_queued() -> Scenario {
 
 pub fn run(tier: &str) -> ! {
 	let mut run = Run::new("C14", tier, "model_checking");
-	let budget = Budget::new(if tier == "thorough" { 5000.0 } else { 150.0 });
+	let budget = Budget::new(if tier == "thorough" { 1500.0 } else { 150.0 });
 	run.set("rule", json!("graph search over insert / overwrite-across-size-classes / remove histories (2-3 keys x {5 B, 300 B, 9000 B chained}; set/ref/deref on a counting column; trees sharing nodes, dereferenced in every order; a btree grown to depth >= 2 and shrunk again; two index growths queued behind each other and then drained), the pipeline drained after every commit (plus stage-interleaved variants), with reopen; at every quiescent state an independent parser reads the files: free lists acyclic, in range, tombstones only; every index entry resolves to a keyed value (inert leftovers only after growth); btree walked from its header: keys strictly ascending, every leaf at the recorded depth, values read; tree nodes walked from the roots, parents counted and compared with the ref-count table; every slot below each table's fill mark is in exactly one live chain or on the free list exactly once (no leak, no double use); counts and values equal the model's. A crash scenario runs the same parser after recovery + clean drop"));
 	run.assumptions = vec!["the parser is written from the format comments and shares no code with the implementation; size classes come from a hook and are cross-checked against file names and sizes".into()];
 	let mut scns = scenarios(tier);
